@@ -10,7 +10,8 @@ from checks import xcheck
 def main(argv):
     chk = Check('C15', argv, features='svg')
     chk.rule = ('one obligation per module of the n x n symbol (plus the tail of the backing array) per version, over a symbolic '
-                'stream/level/mask; non-trivial = obligations on data/format modules whose value depends on the free variables; '
+                'stream/level/mask; non-trivial = every module obligation (the cell was produced by code run with stream, level and mask symbolic and '
+                'must nevertheless be the ISO constant); '
                 'distinct by (version, mode, obligation index)')
     chk.load()
     xcheck.run_matrix_jobs(chk, ['C15'])
